@@ -94,6 +94,7 @@ func muxHarness(rc *RunCtx) {
 	tp := rc.Tape
 	nCallers := 1 + tp.Biased("cfg", rc.Scale(6, 10))
 	perCaller := 1 + tp.Biased("cfg", rc.Scale(3, 6))
+	rc.AllowStalls = true
 	s := rc.NewSim(rc.Scale(20000, 60000), 10*time.Minute)
 	m := &muxState{rc: rc, s: s, byTag: map[string]*muxCall{}, bySeq: map[int]*muxDelivery{}, prof: muxProfileFor(rc.Prop)}
 	rc.Sample["callers"] = nCallers
@@ -473,7 +474,11 @@ func (m *muxState) check(tr frugal.FTransport, canary *muxCall, finished bool, b
 			continue
 		}
 		el := c.returnAt - c.invokeAt
-		if el > c.timeout+allowance {
+		stalled := m.s.AnyStall(c.invokeAt, c.returnAt)
+		if stalled {
+			rc.Probe("call-overlapping-a-stalled-task")
+		}
+		if el > c.timeout+allowance && !stalled {
 			rc.Violate("C13", "late-return", m.kind, fmt.Sprintf("call %d returned after %v, timeout %v (err=%v)", c.id, el, c.timeout, c.err))
 		}
 		// was a response for this call fully readable strictly before its deadline?
@@ -526,7 +531,7 @@ func (m *muxState) check(tr frugal.FTransport, canary *muxCall, finished bool, b
 			if el < c.timeout {
 				rc.Violate("C13", "early-timeout", m.kind, fmt.Sprintf("call %d timed out after %v < %v", c.id, el, c.timeout))
 			}
-			if inTime {
+			if inTime && !stalled {
 				key := m.kind
 				if c == canary {
 					key = m.kind + " canary"
@@ -673,6 +678,8 @@ func (rt *muxRoundTripper) RoundTrip(req *http.Request) (*http.Response, error) 
 		if !wait(c.timeout + time.Duration(1+tp.Intn("peer", 50))*time.Millisecond) {
 			return nil, req.Context().Err()
 		}
+		// (reachable when a stalled task lets the deadline and this timer become ready at once)
+		c.deliveries = append(c.deliveries, &muxDelivery{kind: "late", handedStep: m.s.Step, deliveredAt: m.s.Now(), deliveredStep: m.s.Step})
 		return respond(200, io.NopCloser(bytes.NewReader([]byte(enc)))), nil
 	case 3:
 		c.plan = "headers-then-stalled-body"
